@@ -60,7 +60,8 @@ def _xhj_gc_commands_to_rmfiles(hsize, files):
 
 def _xhj_gc_files_to_rmfiles(hsize, files):
     """Return the number and list of history files to remove to get under the file limit."""
-    rmfiles = files[:-hsize] if len(files) > hsize else []
+    keep = max(hsize, 0)
+    rmfiles = files[: len(files) - keep] if len(files) > keep else []
     return len(rmfiles), rmfiles
 
 
